@@ -7,7 +7,7 @@ Obs == JsonDeserialize(IOEnv.OBS)
 TableData == JsonDeserialize(IOEnv.TABLE)      \* sequence of [name, dim] for the real units used ([] in model runs)
 MCTable == [n \in {TableData[j].name : j \in DOMAIN TableData} |->
               LET r == CHOOSE j \in DOMAIN TableData : TableData[j].name = n IN
-              [UnitRec(n, TableData[r].dim, IF TableData[r].dim = "1" THEN <<1,7>> ELSE ROne, RZero)
+              [UnitRec(n, TableData[r].dim, IF TableData[r].dim = "1" /\ ~TableData[r].one THEN <<1,7>> ELSE ROne, RZero)
                  EXCEPT !.em = {TableData[r].emdims[k] : k \in DOMAIN TableData[r].emdims}]]
 VARIABLE i
 Init == i = 1
